@@ -34,3 +34,17 @@ Require Import LT.Model.Values LT.Proofs.ValuesProofs.
 Theorem C02_find_all_depths : forall v t, In t (find_tasks v) <-> Occurs t v.
 Proof. exact find_tasks_exact. Qed.
 Print Assumptions C02_find_all_depths.
+
+(* ---- fork backend: the dict object handed to forked workers.  For every sequence of results stored by wait(), results released
+   by remove_results and workers forked in between, what a forked worker is handed is what the runner holds at that moment —
+   given that the dict is only ever mutated in place (read from the runners' source); *)
+Require Import LT.Model.Scope LT.Proofs.ScopeProofs.
+Theorem C02_forked_worker_reads_current_results : forall ops,
+  Forall (fun p => fst p = snd p) (vrun results_view_src v_init ops).
+Proof. exact (fun ops => view_in_place ops v_init eq_refl). Qed.
+Print Assumptions C02_forked_worker_reads_current_results.
+
+(* if the attribute is ever re-bound (say, to release an emptied dict), a worker forked afterwards reads the abandoned object. *)
+Theorem C02_rebound_results_refuted : exists ops, ~ Forall (fun p => fst p = snd p) (vrun ViewRebinds v_init ops).
+Proof. exact view_rebinds_refuted. Qed.
+Print Assumptions C02_rebound_results_refuted.
